@@ -133,6 +133,14 @@ FUNCTIONS = [
         'externals': {'self._append_error': {'lean': 'append_error', 'args': [0, 1, 2, 3], 'arg_types': ['str', 'List[str]', 'Optional[List[str]]', 'List[str]'], 'ret': []}},
         'free': {'ret': 'bool', 'self._macs': 'Optional[List[str]]', 'self._allow_algorithm_subset_and_reordering': 'bool', 'kex.server.mac': 'List[str]'},
         'nonnull': ['kex', 'kex.server'], 'out': ['ret']}),
+    ('terrapin_rule', 'ssh_audit.py', 'post_process_findings', {'unit': 'Logic4', 'extract': 'proc',
+        'select': [('range', ('assign', 'kex_strict_marker', 0, 2), ('if-names', ['algs_to_note', 'len']))],
+        'externals': {'_add_terrapin_warning': {'lean': 'add_terrapin_warning', 'args': [1, 2], 'arg_types': ['str', 'str'], 'ret': []}},
+        'pure_calls': {'_get_chacha_ciphers_enabled': ('chacha_enabled', 'List[str]'), '_get_cbc_ciphers_enabled': ('cbc_enabled', 'List[str]'),
+                       '_get_etm_macs_enabled': ('etm_enabled', 'List[str]')},
+        'passed_through': ['db', 'algs'], 'opaque': ['db'], 'objects': {'algs.ssh2kex': {'kex_algorithms': 'List[str]'}},
+        'locals': {'additional_notes': 'List[str]'},
+        'free': {'client_audit': 'bool', 'algs_to_note': 'List[str]'}, 'out': ['kex_strict_marker', 'algs_to_note', 'additional_notes']}),
     ('is_print_ascii_char', 'utils.py', 'Utils.is_print_ascii', {'unit': 'Logic2', 'extract': 'lambda', 'params': ['int']}),
     # candidates that are outside the subset (kept in the table so that the reason is reported on every run)
     ('ctoi', 'utils.py', 'Utils.ctoi', {}),
@@ -883,6 +891,12 @@ class Tr:
         return ('(' + ' ++ '.join(out) + ')' if out else '([] : Str)'), STR
 
     def call(self, node, env, binds):
+        pc = self.fn.opts.get('pure_calls', {})
+        if dotted(node.func) in pc and ('$call:' + dotted(node.func)) in env:
+            # a helper the table declares pure (it only reads objects this procedure does not change): its value is a parameter
+            if node.keywords or not all(isinstance(a, ast.Name) and a.id in self.fn.opts.get('passed_through', ()) for a in node.args):
+                bad(node, 'a declared pure helper called with anything but the objects the table lets pass through')
+            return env['$call:' + dotted(node.func)]
         if node.keywords:
             bad(node, 'keyword arguments')
         f = node.func
@@ -1221,6 +1235,9 @@ class Tr:
                 return self.wrap(binds, ('bind', nm, 'Py.setItem %s %s %s' % (env[key][0], i, v), self.block(rest, env2, k)))
             key = self.target_key(tgt)
             binds = []
+            if isinstance(s.value, ast.List) and not s.value.elts and key in self.fn.opts.get('locals', {}):
+                t = type_of_name(self.fn.opts['locals'][key])
+                return self.bind_var(key, '([] : %s)' % lean_type(t), t, env, lambda e: self.block(rest, e, k))
             c, t = self.expr(s.value, env, binds)
             if t[0] == 'list' and isinstance(s.value, ast.Name) and s.value.id in env:
                 bad(s, 'a list local bound to another list local (the two names would share one list)')
@@ -1761,6 +1778,10 @@ def translate_entry(name, fname, qual, opts, known):
                 add_param(v, type_of_name(tn))
         for v in opts.get('nonnull', ()):
             env[v + '!'] = ('true', BOOL)
+        for fname_, (pname, tn) in opts.get('pure_calls', {}).items():
+            nm = fn.fresh(pname)
+            env['$call:' + fname_] = (nm, type_of_name(tn))
+            params.append((nm, type_of_name(tn)))
         outs = opts['out']
 
         def k_proc(e, stop=False):
